@@ -515,8 +515,10 @@ def run(facts, out):
     check_end_time_separator(facts, out)
     check_line_termination(facts, out)
     check_whole_lists_written(facts, out)
+    check_control_point_lists_whole(facts, out)
     check_timing_columns(facts, out)
     check_flags_as_numbers(facts, out)
+    check_decoder_stores_as_read(facts, out)
     check_redundancy_tolerance(facts, out)
 
 
@@ -603,6 +605,105 @@ def check_lossless(facts, out):
 
 # K8: the end time of a spinner is its own `,`-field; the end time of a hold is the first `:`-item of
 # the sample field.  Which separator follows the end time is decided by the object's kind alone.
+# K15: fields a second key may legitimately feed -- each line quotes the statement that says so
+K15_SHARED_FIELDS = {
+    # C11: "approach rate follows overall difficulty until an explicit approach rate is given"
+    ('difficulty', ('difficulty', 'approach_rate')): {'OverallDifficulty', 'ApproachRate'},
+}
+# K15: keys whose stored value is deliberately not the parsed one (the decode-side limits of C11)
+K15_CLAMPED = {('difficulty', 'slider_multiplier'), ('difficulty', 'slider_tick_rate')}
+
+
+def check_decoder_stores_as_read(facts, out):
+    """K15 (C03, the decode half of "encoding and decoding again shows exactly the edited value"):
+    (a) every field of the four key/value sections is fed by one key only (exceptions: K15_SHARED_FIELDS) -- a second key
+        writing it makes the field depend on the presence/order of another line (`Title` also filling `title_unicode`);
+    (b) nothing that changes a value sits between the parsed text and the field: no clamp, `max`/`min`/`abs`, rounding,
+        arithmetic, narrowing cast or text rewriting in the stored expression (locals followed through their `let`,
+        helpers inlined), except for the two keys the format clamps (K15_CLAMPED).  (A comparison-chain clamp written
+        out by hand is not seen by this rule.)"""
+    import hp
+    from hp import ANY, K, L, M, C, BIN, TRY, OR, CLAMP, CONTAINS, F
+    n = 0
+    for sec, (dec_ty, key_enum, writer) in SECTIONS.items():
+        dtab, ppath = decoder_key_table(facts, dec_ty, key_enum, sec)
+        hfn = facts.hir.get(ppath)
+        if not dtab or hfn is None:
+            continue
+        b = facts.bodies.get(ppath)
+        loc0 = '%s:%d' % (b.file, b.line) if b is not None else ppath
+        # (a)
+        feeders = {}
+        for var, fields in dtab.items():
+            for f_ in fields:
+                feeders.setdefault(tuple(f_), set()).add(var)
+        for f_, vs in sorted(feeders.items()):
+            if f_[-1].startswith('has_'):
+                continue
+            allowed = K15_SHARED_FIELDS.get((sec, f_))
+            ok = len(vs) == 1 or (allowed is not None and vs <= allowed)
+            n += 1
+            out.add('KT-K15', ppath, 'one-key-per-field:' + '.'.join(f_), loc0, ok,
+                    '' if ok else ('field `%s` is written under the keys %s: what it holds after decoding depends on which of these '
+                                   'lines are present and in which order, so an edit of it (or of the other key\'s field) does not '
+                                   'read back as written' % ('.'.join(f_), sorted(vs))), ordinal=False)
+        # (b)
+        vh = H.inlined_fn(facts, hfn, depth=3)
+        ctx = hp.Ctx(facts, H.binding_inits(vh), vh)
+        ALTERING = {'clamp', 'max', 'min', 'abs', 'round', 'floor', 'ceil', 'trunc', 'rem_euclid', 'pow', 'powi', 'powf', 'sqrt',
+                    'saturating_add', 'saturating_sub', 'saturating_mul', 'wrapping_add', 'wrapping_sub', 'wrapping_mul',
+                    'checked_add', 'checked_sub', 'checked_mul', 'signum', 'to_lowercase', 'to_uppercase', 'to_ascii_lowercase',
+                    'to_ascii_uppercase', 'replace', 'trim_matches', 'trim_start_matches', 'trim_end_matches', 'truncate'}
+        ARITH = {'Add', 'Sub', 'Mul', 'Div', 'Rem', 'BitAnd', 'BitOr', 'BitXor', 'Shl', 'Shr'}
+
+        def alterations(e, depth=0, seen=None):
+            """operations in the value expression (locals followed through their single `let`) that change the parsed value"""
+            seen = seen if seen is not None else set()
+            found = []
+
+            def v(x, anc):
+                if any(a.get('k') == 'closure' for a in anc):
+                    return
+                if x.get('k') == 'mcall' and x.get('name') in ALTERING:
+                    found.append('`.%s()`' % x['name'])
+                elif x.get('k') == 'call' and x['f'].get('k') == 'path' and x['f'].get('name') in ALTERING:
+                    found.append('`%s()`' % x['f']['name'])
+                elif x.get('k') == 'binary' and x.get('op') in ARITH:
+                    found.append('`%s`' % x['op'])
+                elif x.get('k') == 'unary' and x.get('op') == 'Neg':
+                    found.append('negation')
+                elif x.get('k') == 'cast' and x.get('ty') in ('i8', 'i16', 'i32', 'u8', 'u16', 'u32', 'f32', 'usize', 'isize'):
+                    found.append('`as %s`' % x['ty'])
+                elif x.get('k') == 'local' and depth < 3 and x.get('name') not in seen and x.get('name') not in ('state', 'value', 'line', 'key'):
+                    seen.add(x['name'])
+                    its = hp.unique_inits(ctx, x['name'])
+                    if len(its) == 1:
+                        found.extend(alterations(its[0], depth + 1, seen))
+            if isinstance(e, dict):
+                H.walk(e, v)
+            return found
+
+        def visit(nd, anc):
+            nonlocal n
+            if nd.get('k') != 'assign':
+                return
+            fc = H.field_chain(nd['l'])
+            if not (fc and fc[0] == 'state' and fc[1]):
+                return
+            fld = tuple(fc[1])
+            if (sec, fld[-1]) in K15_CLAMPED:
+                return                                          # decided by the clamp rows of C11
+            alt = alterations(nd['r'])
+            ok = not alt
+            n += 1
+            out.add('KT-K15', ppath, 'stored-as-read:' + '.'.join(fld), '%s:%s' % (b.file if b is not None else '', nd.get('ln')), ok,
+                    '' if ok else ('`%s` is not stored as it was parsed (%s sits between the text and the field): a value the format '
+                                   'can represent does not read back as written' % ('.'.join(fld), ', '.join(sorted(set(alt))))),
+                    ordinal=False)
+        H.walk(vh['body'], visit)
+    out.anchor('KT', 'decoder assignments checked (K15)', n >= 30, '%d' % n)
+
+
 def check_flags_as_numbers(facts, out):
     """K14: a boolean is never written with `{}`.  The decoders read every flag as a number (`i32::parse(v)? == 1`,
     first character `1`); `true`/`false` is rejected by those parsers, so a flag formatted through Display makes the
@@ -889,6 +990,116 @@ def check_whole_lists_written(facts, out):
     out.anchor('KT', 'iterations over list fields in the writers', n >= 3, '%d' % n)
 
 
+CP_LISTS = ('timing_points', 'difficulty_points', 'effect_points', 'sample_points')
+POINT_SELECTING = LIST_SELECTING | {'peekable', 'next_if', 'next_if_eq', 'peek', 'pop', 'truncate', 'drain', 'split_off', 'retain',
+                                    'retain_mut', 'remove', 'swap_remove', 'clear'}
+
+
+def check_control_point_lists_whole(facts, out):
+    """K11b: the four control-point lists reach the written timing lines whole.  In the timing-point writer every
+    iterator chain that starts at one of the lists -- or at a local collected from one, as long as its elements are still
+    the points (a projection to `.time` ends the tracking: sorting and de-duplicating *times* is how groups are formed)
+    -- must not select, cut, skip or conditionally consume (`filter`, `take`, `skip`, `peekable().next_if(..)`, ..)."""
+    w = 'encode::<impl beatmap::Beatmap>::encode_timing_points'
+    hfn = facts.hir.get(w)
+    out.anchor('KT', 'timing-point writer', hfn is not None)
+    if hfn is None:
+        return
+    hfn = H.inlined_fn(facts, hfn, depth=3)
+    inits = H.binding_inits(hfn)
+    wbody = facts.body(w)
+
+    def chain(x):
+        names = []
+        cur = x
+        while isinstance(cur, dict) and cur.get('k') == 'mcall':
+            names.append(cur.get('name'))
+            cur = H.peel(cur['recv'])
+        return names, cur
+
+    def projects_time(x):
+        # `.map(|p| p.time)` somewhere in the chain: from here on the elements are times
+        cur = x
+        while isinstance(cur, dict) and cur.get('k') == 'mcall':
+            if cur.get('name') == 'map' and cur.get('args'):
+                cl = H.peel(cur['args'][0])
+                if isinstance(cl, dict) and cl.get('k') == 'closure':
+                    b = H.peel(cl['body'])
+                    if isinstance(b, dict) and b.get('k') == 'field' and b.get('n') == 'time':
+                        return True
+            cur = H.peel(cur['recv'])
+        return False
+    point_locals = {}
+    changed = True
+    rounds = 0
+    while changed and rounds < 6:
+        changed = False
+        rounds += 1
+        for nm, its in inits.items():
+            if nm in point_locals:
+                continue
+            for i in its:
+                i0 = H.peel(i)
+                names, root = chain(i0)
+                fc = H.field_chain(root) if isinstance(root, dict) else None
+                src = None
+                if fc and fc[1] and fc[1][-1] in CP_LISTS:
+                    src = fc[1][-1]
+                elif isinstance(root, dict) and root.get('k') == 'local' and root.get('name') in point_locals and root['name'] != nm:
+                    src = point_locals[root['name']]
+                if src and not projects_time(i0) and ('collect' in names or not names or names[-1:] == ['iter'] or 'into_iter' in names
+                                                      or 'peekable' in names or 'clone' in names or 'to_vec' in names):
+                    point_locals[nm] = src
+                    changed = True
+    bad = []
+    n = [0]
+
+    def visit(x, anc):
+        if x.get('k') != 'mcall':
+            return
+        if any(isinstance(a, dict) and a.get('k') == 'mcall' and a.get('recv') is not None and H.peel(a['recv']) is x for a in anc[-1:]):
+            return
+        names, root = chain(x)
+        fc = H.field_chain(root) if isinstance(root, dict) else None
+        src = None
+        if fc and fc[1] and fc[1][-1] in CP_LISTS:
+            src = fc[1][-1]
+        elif isinstance(root, dict) and root.get('k') == 'local' and root.get('name') in point_locals:
+            src = point_locals[root['name']]
+        elif isinstance(root, dict) and root.get('k') == 'local' and root.get('name') in CP_LISTS and 'Vec<' in (root.get('ty') or ''):
+            src = root['name']
+        if not src:
+            return
+        n[0] += 1
+        # names are outermost-first; everything applied before a projection to times concerns the points
+        sel = []
+        cur = x
+        seen_proj = projects_time(x)
+        cur_names = []
+        c2 = x
+        after_proj = True
+        while isinstance(c2, dict) and c2.get('k') == 'mcall':
+            is_proj = False
+            if c2.get('name') == 'map' and c2.get('args'):
+                cl = H.peel(c2['args'][0])
+                b = H.peel(cl['body']) if isinstance(cl, dict) and cl.get('k') == 'closure' else None
+                is_proj = isinstance(b, dict) and b.get('k') == 'field' and b.get('n') == 'time'
+            if is_proj:
+                after_proj = False
+            elif not (seen_proj and after_proj) and c2.get('name') in POINT_SELECTING:
+                sel.append(c2['name'])
+            c2 = H.peel(c2['recv'])
+        if sel:
+            bad.append((src, sel, x.get('ln')))
+    H.walk(hfn['body'], visit)
+    ok = not bad
+    out.add('KT-K11', w, 'control-point-lists-written-whole', '%s:%s' % (wbody.file if wbody else 'src/encode.rs', bad[0][2] if bad else (wbody.line if wbody else 0)),
+            ok, '' if ok else ('the points of `%s` reach the written lines through `%s`: a point the decoder stored can be left out'
+                               % (bad[0][0], ', '.join(bad[0][1]))),
+            {'chains_examined': n[0], 'note': None if n[0] else 'no iteration over the lists is visible in the writer or its helpers: not decided'},
+            ordinal=False)
+
+
 def _local_encode_callees(facts, hfn):
     res = []
 
@@ -913,12 +1124,24 @@ def check_redundancy_tolerance(facts, out):
     out.anchor('KT', 'redundancy predicates (decoder points + encoder properties)', len(fns) >= 4, str(sorted(fns)))
     tol = {}
     for p in fns:
-        h = facts.hir[p]
+        h = H.inlined_fn(facts, facts.hir[p], depth=2)         # the comparison may live in a shared `nearly_equal` helper
         ctx = hp.Ctx(facts, H.binding_inits(h), h)
 
         pat = hp.OR(hp.BIN('Lt', hp.M('abs', hp.ANY()), hp.ANY()), hp.BIN('Le', hp.M('abs', hp.ANY()), hp.ANY()))
         for n, _anc in hp.find(ctx, h['body'], pat):
             tol.setdefault(p, []).append(ctx.const_value(hp.strip(n)['b']))
+        # the two-sided spelling `-eps < d && d < eps`
+        two = hp.BIN('And', hp.OR(hp.BIN('Lt', hp.UN('Neg', hp.ANY()), hp.ANY()), hp.BIN('Gt', hp.ANY(), hp.UN('Neg', hp.ANY()))),
+                     hp.OR(hp.BIN('Lt', hp.ANY(), hp.ANY()), hp.BIN('Gt', hp.ANY(), hp.ANY())), commutative=True)
+        for n, _anc in hp.find(ctx, h['body'], two):
+            n0 = hp.strip(n)
+            for side in (hp.strip(n0['a']), hp.strip(n0['b'])):
+                for x in (side.get('a'), side.get('b')):
+                    x0 = hp.strip(x) if isinstance(x, dict) else None
+                    if isinstance(x0, dict) and not (x0.get('k') == 'unary' and x0.get('op') == 'Neg'):
+                        v_ = ctx.const_value(x0)
+                        if isinstance(v_, float):
+                            tol.setdefault(p, []).append(v_)
     vals = {v for vs in tol.values() for v in vs}
     enc = [p for p in fns if p.startswith('encode::')]
     for p in enc:
@@ -1007,9 +1230,10 @@ def _tuple_elems_used(cl):
 
 
 def _lookup_table(facts, hfn):
-    """{str literal: variant} from a constant table of pairs searched by its literal:
-    `TABLE.iter().find(|(k, _)| *k == name).map(|(_, v)| *v)` (also find_map / position-free spellings are not needed
-    yet); the closure of `find` must read the literal column only, the closure of `map` the other one"""
+    """{str literal: variant} from a constant table of tuples searched by its literal column(s):
+    `TABLE.iter().find(|(k, _)| *k == name).map(|(_, v)| *v)`, also with several literal columns
+    (`find(|(_, number, name)| s == *number || s == *name)`); the closure of `find` must read literal columns only, the
+    closure of `map` the variant column"""
     res = {}
 
     def table_of(e):
@@ -1024,7 +1248,8 @@ def _lookup_table(facts, hfn):
                 b = H.peel(b['e'])
             if isinstance(b, dict) and b.get('k') == 'array':
                 rows = [H.peel(x) for x in b.get('es', [])]
-                if rows and all(isinstance(r, dict) and r.get('k') == 'tup' and len(r.get('es', [])) == 2 for r in rows):
+                if rows and all(isinstance(r, dict) and r.get('k') == 'tup' and len(r.get('es', [])) >= 2 for r in rows) and \
+                        len({len(r['es']) for r in rows}) == 1:
                     return rows
         return None
 
@@ -1038,21 +1263,50 @@ def _lookup_table(facts, hfn):
         c_find, c_map = H.peel(f['args'][0]), H.peel(e['args'][0])
         if rows is None or c_find.get('k') != 'closure' or c_map.get('k') != 'closure':
             return
-        ki = [i for i in (0, 1) if all(H.peel(r['es'][i]).get('k') == 'lit' and H.peel(r['es'][i]).get('t') == 'str' for r in rows)]
-        if len(ki) != 1:
+        arity = len(rows[0]['es'])
+        lit_cols = {i for i in range(arity) if all(H.peel(r['es'][i]).get('k') == 'lit' and H.peel(r['es'][i]).get('t') == 'str' for r in rows)}
+        var_cols = {i for i in range(arity) if all(_ctor_in(r['es'][i]) is not None and H.peel(r['es'][i]).get('k') != 'lit' for r in rows)}
+        if not lit_cols or len(var_cols) != 1:
             return
-        ki = ki[0]
+        vi = next(iter(var_cols))
+
+        def cols_used(cl):
+            ps = cl.get('params', [])
+            p = ps[0] if len(ps) == 1 else None
+            while isinstance(p, dict) and p.get('k') in ('pref', 'pderef') and 'p' in p:
+                p = p['p']
+            if isinstance(p, dict) and p.get('k') == 'ptuple' and len(p.get('pats', [])) != arity:
+                # a `..` in the pattern: the columns are told by the types of what is bound
+                used = set()
+                for q in p.get('pats', []):
+                    for nm in H.pat_bindings(q):
+                        tys = []
+                        H.walk(cl['body'], lambda x, a: tys.append(x.get('ty') or '') if x.get('k') == 'local' and x.get('name') == nm else None)
+                        if tys and all('str' in t_ for t_ in tys):
+                            used |= lit_cols
+                        elif tys:
+                            used.add(vi)
+                return used
+            return _tuple_elems_used(cl)
         body = H.peel(c_find['body'])
-        if not (isinstance(body, dict) and body.get('k') == 'binary' and body.get('op') == 'Eq'):
+
+        def eqs_only(x):
+            x = H.peel(x)
+            if isinstance(x, dict) and x.get('k') == 'binary' and x.get('op') == 'Or':
+                return eqs_only(x['a']) and eqs_only(x['b'])
+            return isinstance(x, dict) and x.get('k') == 'binary' and x.get('op') == 'Eq'
+        if not eqs_only(body):
             return
-        if _tuple_elems_used(c_find) != {ki} or _tuple_elems_used(c_map) != {1 - ki}:
+        fu, mu = cols_used(c_find), cols_used(c_map)
+        if not fu or not fu <= lit_cols or mu != {vi}:
             return
         for r in rows:
-            lit = H.peel(r['es'][ki])['v']
-            var = _ctor_in(r['es'][1 - ki])
-            if lit in res and res[lit] != var:
-                continue            # `find` takes the first row
-            res[lit] = var
+            var = _ctor_in(r['es'][vi])
+            for ki in sorted(fu):
+                lit = H.peel(r['es'][ki])['v']
+                if lit in res and res[lit] != var:
+                    continue            # `find` takes the first row
+                res[lit] = var
     H.walk(hfn['body'], visit)
     return res
 
@@ -1135,6 +1389,8 @@ def check_enum_numbers(facts, out):
             continue
         if fs is not None:
             tab = _match_table(fs)
+            if not tab:
+                tab = _lookup_table(facts, H.inlined_fn(facts, fs, depth=1))      # a constant table of spellings searched by text
             for name, d in discr.items():
                 ok = tab.get(str(d)) == name
                 out.add('KT-K4', '<%s as std::str::FromStr>::from_str' % en, 'number:%s=%d' % (name, d),
@@ -1403,6 +1659,64 @@ def run_kv(facts, out):
 PT_MOD = 'section::hit_objects::slider::path_type::'
 
 
+def letter_table_by_prefix_tests(facts, dec):
+    """{letter: set of PathType constant names} when the decoder tests the first letter with `starts_with('X')` /
+    `strip_prefix('X')` instead of a `match` on the first char: the symbolic value of the function under "the text starts
+    with X" for each letter that is tested, '_' for none of them"""
+    import symeval as SE
+    vh = H.inlined_fn(facts, dec, depth=1)
+    ev = SE.SymEval(None, budget=6000)
+    body = vh['body']
+    try:
+        tree = ev.seq(list(body.get('stmts', [])), body.get('expr'), {},
+                      lambda env, tail: ev.value(tail, env) if tail is not None else ('v', {'k': 'unit'}),
+                      kret=lambda vt, env=None: vt)
+    except SE.Stop:
+        return {}
+    letters = set()
+
+    def test_letter(c):
+        e = c[1] if c[0] == 'e' else c[2]
+        e = H.peel(e)
+        pol = True
+        while isinstance(e, dict) and e.get('k') == 'unary' and e.get('op') == 'Not':
+            e = H.peel(e['e'])
+            pol = not pol
+        if isinstance(e, dict) and e.get('k') == 'mcall' and e.get('name') in ('starts_with', 'strip_prefix') and e.get('args'):
+            a = H.peel(e['args'][0])
+            if isinstance(a, dict) and a.get('k') == 'lit' and isinstance(a.get('v'), str) and len(a['v']) == 1:
+                if c[0] == 'pat' and 'None' in repr(c[1])[:200] and 'Some' not in repr(c[1])[:200]:
+                    pol = not pol
+                return a['v'], pol
+        return None
+
+    def collect(t):
+        if t[0] == 'ite':
+            tl = test_letter(t[1])
+            if tl:
+                letters.add(tl[0])
+            collect(t[2])
+            collect(t[3])
+    collect(tree)
+    if not letters:
+        return {}
+
+    def names_under(t, letter):
+        if t[0] == 'v':
+            out_ = set()
+            H.walk(t[1] if isinstance(t[1], dict) else {}, lambda x, a: out_.add(x['def']) if x.get('k') == 'path' and
+                   x.get('def', '').startswith(PT_MOD + 'PathType::') and x.get('dk', '').startswith('AssocConst') else None)
+            return out_
+        tl = test_letter(t[1])
+        if tl is None:
+            return names_under(t[2], letter) | names_under(t[3], letter)
+        holds = (tl[0] == letter) == tl[1]
+        return names_under(t[2] if holds else t[3], letter)
+    res = {l: names_under(tree, l) for l in letters}
+    res['_'] = names_under(tree, None)
+    return res
+
+
 def check_path_tokens(facts, out):
     """K5: the slider path type token.  The decoder reads a letter (+ optional degree) into
     PathType { kind, degree }; the encoder must (a) write the same letter for each kind, (b) write
@@ -1432,6 +1746,14 @@ def check_path_tokens(facts, out):
                 if a['pat'].get('k') == 'wild' and names:
                     letter_const['_'] = names[-1]
     H.walk(dec['body'], visit)
+    if not letter_const:
+        for l, ds in letter_table_by_prefix_tests(facts, dec).items():
+            ds = sorted(ds)
+            if ds:
+                # the constant that is particular to this letter (the fall-through constant may appear under every letter
+                # when the degree parse is an undecided test)
+                own = [d for d in ds if l != '_'] or ds
+                letter_const[l] = own[-1] if len(own) == 1 else sorted(own, key=lambda d: ('BEZIER' not in d and l == 'B', d))[0]
     letter_kind = {}
     for l, cpath in letter_const.items():
         ch = facts.hir.get(cpath)
@@ -1689,6 +2011,40 @@ def _name_predicate_vectors(facts, enc):
         return {'k': 'call', 'f': {'k': 'path', 'name': 'Default', 'dk': 'Ctor(Variant, Fn)', 'def': HS + 'HitSampleInfoName::Default'},
                 'args': [{'k': 'path', 'name': v[1][0], 'dk': 'Ctor(Variant, Const)', 'def': HS + 'HitSampleDefaultName::' + v[1][0]}]}
 
+    def pat_holds(pat, scrut):
+        """does the abstract name `scrut` match the pattern: alternatives, constants naming a sample (`HIT_NORMAL`),
+        constructor patterns; None when it cannot be told"""
+        sv = norm(scrut)
+        if sv is None or not isinstance(pat, dict):
+            return None
+        k_ = pat.get('k')
+        if k_ == 'wild' or (k_ == 'bind' and 'sub' not in pat):
+            return True
+        if k_ in ('pref', 'pderef') and 'p' in pat:
+            return pat_holds(pat['p'], scrut)
+        if k_ == 'por':
+            rs = [pat_holds(q, scrut) for q in pat.get('pats', [])]
+            if any(r is True for r in rs):
+                return True
+            return False if all(r is False for r in rs) else None
+        if k_ == 'pexpr':
+            pv = norm(pat.get('e'))
+            if pv is None:
+                return None
+            if pv[0] != sv[0]:
+                return False
+            if '?' in repr(pv) + repr(sv):
+                return None
+            return pv == sv
+        if k_ in ('ptstruct', 'pstruct') and isinstance(pat.get('path'), dict):
+            if pat['path'].get('name') != sv[0]:
+                return False
+            subs = pat.get('pats', [])
+            if all(q.get('k') in ('wild', 'bind') for q in subs):
+                return True
+            return None
+        return None
+
     def fold(e, name_val, depth=0):
         e = _strip(H.peel(e))
         if not isinstance(e, dict) or depth > 12:
@@ -1722,7 +2078,9 @@ def _name_predicate_vectors(facts, enc):
             while t[0] == 'ite':
                 c = t[1]
                 if c[0] == 'pat':
-                    st_, _b = SE.SymEval.static_pat(c[1], c[2])
+                    st_ = pat_holds(c[1], c[2])
+                    if st_ is None:
+                        st_, _b = SE.SymEval.static_pat(c[1], c[2])
                     if st_ is None:
                         return None
                     t = t[2] if st_ else t[3]
